@@ -210,6 +210,8 @@ Next ==
                      \cup (IF h.err = "" /\ HasExc(r)
                            THEN {<<"exc", IF r.ty = E_PLACEMENT THEN "unexpected_in_placement" ELSE "unexpected">>} ELSE {})
                      \cup (IF h.err = "" /\ ~HasExc(r) THEN Diff(h.S, L) ELSE {})
+                     \* C18 / C02: the TASK_RELEASE handler releases the task (and nothing else happens to it)
+                     \cup (IF r.ty = E_RELEASE /\ h.err = "" /\ ~HasExc(r) /\ Diff(h.S, L) # {} THEN {<<"release", "handler">>} ELSE {})
                      \cup (IF r.ty = E_PLACEMENT /\ r.t <= Len(S.ts) /\ S.ts[r.t].st = SCHEDULED
                               /\ L.ts[r.t].st = RUNNING /\ ~FuzzOK(World, S, r.t, L.ts[r.t].rem)
                            THEN {<<"fuzz", "range">>} ELSE {})
